@@ -46,10 +46,10 @@ func NewEnv() *VMEnv {
 
 // Outcome of running one script.
 type Outcome struct {
-	Out     string // captured output
-	Kind    string // ok | parse-error | uncaught | go-panic
-	Detail  string // message of the error / panic (first line)
-	Stack   string
+	Out    string // captured output
+	Kind   string // ok | parse-error | uncaught | go-panic
+	Detail string // message of the error / panic (first line)
+	Stack  string
 }
 
 func (o Outcome) String() string {
